@@ -230,7 +230,10 @@ class Smt2Export(Contract):
     diff = "eval"
 
     def cases(self, tier):
-        return [dict(obj=o, optimizer=z, init=i) for o in (False, True) for z in ("incremental", "optimize") for i in (False, True)]
+        out = [dict(obj=o, optimizer=z, init=i) for o in (False, True) for z in ("incremental", "optimize") for i in (False, True)]
+        # an assertion the user adds to an initialised solver is part of what the solver checks: exported too
+        out += [dict(obj=False, optimizer="incremental", init=True, extra=True), dict(obj=True, optimizer="optimize", init=True, extra=True)]
+        return out
 
     def scenario(self, ps, P, case):
         from contracts.solver_api import small_problem
@@ -242,10 +245,17 @@ class Smt2Export(Contract):
         solver = ps.SchedulingSolver(problem=pb, optimizer=case["optimizer"])
         if case["init"]:
             solver.initialize()
+        extra = []
+        if case.get("extra"):
+            base = list(asserted(solver))
+            f = t1._start + T(P.int("gap")) <= t2._end
+            solver.append_z3_assertion(f)
+            extra = base + [f]
+        self._expected = extra
         if P.symbolic:
             solver.export_to_smt2("ghost.smt2")
             f = [e[1] for e in sym.current().events if e[0] == "file"][-1]
-            return dict(solver=solver, written=f.data, text=None)
+            return dict(solver=solver, written=f.data, text=None, expected=extra)
         d = tempfile.mkdtemp(prefix="psvc-smt-")
         fn = os.path.join(d, "p.smt2")
         try:
@@ -255,11 +265,13 @@ class Smt2Export(Contract):
             if os.path.exists(fn):
                 os.unlink(fn)
             os.rmdir(d)
-        return dict(solver=solver, written=None, text=text)
+        return dict(solver=solver, written=None, text=text, expected=extra)
 
     def clauses(self, P, ctx, case):
         solver = ctx["solver"]
-        A = asserted(solver)
+        # what the solver checks: its stack -- and, when the user added an assertion to the initialised solver, the
+        # stack as it was plus that assertion (whatever the solver does with it internally)
+        A = ctx["expected"] if ctx.get("expected") else asserted(solver)
         if P.symbolic:
             w = ctx["written"]
             ok = len(w) == 1 and hasattr(w[0], "formulas")
